@@ -112,6 +112,17 @@ static void dump(const char *phase, std::vector<topology::Node*> &tn, std::vecto
     printf("END\n");
 }
 
+// convergence test that also dumps the topology after every iteration of the topology-preserving run ("during layout")
+struct DumpingTest : public cola::TestConvergence {
+    std::vector<topology::Node*> *tn; std::vector<topology::Edge*> *routes; std::vector<cola::Edge> *es; bool on; int it;
+    DumpingTest(double tol, unsigned maxit) : cola::TestConvergence(tol, maxit), tn(nullptr), routes(nullptr), es(nullptr), on(false), it(0) {}
+    virtual bool operator()(const double new_stress, std::valarray<double> &X, std::valarray<double> &Y) {
+        bool r = cola::TestConvergence::operator()(new_stress, X, Y);
+        if (on) { char nm[32]; snprintf(nm, sizeof nm, "iter%d", ++it); dump(nm, *tn, *routes, *es); }
+        return r;
+    }
+};
+
 static double EXTRA_GAP = 1e-5;   // beautify.cpp uses 1e-5 (nodes end up touching); the check's main stream uses 0.5
 static void removeoverlapsX(vpsc::Rectangles &rs, bool both)
 {
@@ -179,7 +190,7 @@ static int layout_mode(unsigned long long seed, unsigned V, unsigned extra, doub
     }
     double L = 40;
     try {
-        cola::TestConvergence test(0.01, 100);
+        DumpingTest test(0.01, 100);
         cola::ConstrainedFDLayout alg(rs, es, L, cola::StandardEdgeLengths, &test);
         alg.setConstraints(cy);
         alg.run();
@@ -222,6 +233,7 @@ static int layout_mode(unsigned long long seed, unsigned V, unsigned extra, doub
         delete router;
         dump("before", tn, routes, es);
         test.reset();
+        test.tn = &tn; test.routes = &routes; test.es = &es; test.on = true;
         topology::ColaTopologyAddon topo(tn, routes);
         alg.setTopology(&topo);
         alg.run();
